@@ -1153,6 +1153,14 @@ pub mod verif_hooks {
             .map_err(|e| e.to_string())
     }
 
+    /// `parse_args` alone (flags, starting points, expression): Ok(true) if
+    /// -help or -version was requested.
+    pub fn parse_only(args: &[&str]) -> Result<bool, String> {
+        crate::find::parse_args(args)
+            .map(|p| p.config.help_requested || p.config.version_requested)
+            .map_err(|e| e.to_string())
+    }
+
     pub fn printf_parse(format: &str) -> Result<Vec<String>, String> {
         printf::verif_parse(format)
     }
